@@ -271,7 +271,7 @@ func Edits(d *Dialect) []Edit {
 			t := T(s, "t")
 			t.PrimaryKey.AddParts(part(2, C(t, "d")))
 		}, []string{mt("ModifyPrimaryKey[parts]")}},
-		{"add_fk", []string{"fk:fk_new"}, func(s *schema.Schema) {
+		{"add_fk", []string{"fk:fk_new", "fk-d-to-k"}, func(s *schema.Schema) {
 			t, p := T(s, "t"), T(s, "p")
 			t.AddForeignKeys(&schema.ForeignKey{Symbol: "fk_new", Table: t, Columns: []*schema.Column{C(t, "d")}, RefTable: p, RefColumns: []*schema.Column{C(p, "k")}, OnDelete: schema.SetNull})
 		}, []string{mt("AddForeignKey(fk_new)")}},
@@ -301,7 +301,8 @@ func Edits(d *Dialect) []Edit {
 			t := T(s, "t")
 			F(t, "fk_comp").Columns[1] = C(t, "a")
 		}, []string{mt("ModifyForeignKey(fk_comp)[column]")}},
-		{"fk_comp_column_removed", []string{"fk:fk_comp"}, func(s *schema.Schema) {
+		// (shares a tag with add_fk: together they would declare the same key twice under two names)
+		{"fk_comp_column_removed", []string{"fk:fk_comp", "fk-d-to-k"}, func(s *schema.Schema) {
 			f := F(T(s, "t"), "fk_comp")
 			f.Columns, f.RefColumns = f.Columns[:1], f.RefColumns[:1]
 		}, []string{mt("ModifyForeignKey(fk_comp)[column,ref_column]")}},
